@@ -1541,13 +1541,13 @@ func matchExactRegex(v string) ([]string, bool) {
 	}
 
 	start := re.Sub[0]
-	if !(start.Op == syntax.OpBeginLine || start.Op == syntax.OpBeginText) {
+	if start.Op != syntax.OpBeginText {
 		// Regex does not begin with ^
 		return nil, false
 	}
 
 	end := re.Sub[len(re.Sub)-1]
-	if !(end.Op == syntax.OpEndLine || end.Op == syntax.OpEndText) {
+	if end.Op != syntax.OpEndText {
 		// Regex does not end with $
 		return nil, false
 	}
